@@ -339,6 +339,35 @@ def run(prog, rep):
     if not guard:
         rep.violation('R2', loc(nmod, ci), 'NetworkService.connect_interface', 'no already-connected guard', 'an interface that already has a peer must be refused')
 
+    # ---- R9: what a step created is on the undo list before the next step can fail ----
+    rep.rule('R9', 'in a compensated body every created element is recorded for the rollback before the next step that can fail', floor=2)
+    for m_, c_, f_ in prog.all_functions():
+        if not m_.name.startswith('fim.user') or c_ is None:
+            continue
+        for tr_ in [t for t in ast.walk(f_) if isinstance(t, ast.Try) and t.handlers]:
+            lists_ = {l.iter.id for h_ in tr_.handlers for l in ast.walk(h_) if isinstance(l, ast.For) and isinstance(l.iter, ast.Name) and
+                      any(isinstance(c, ast.Call) and (call_name(c) in REMOVERS or call_name(c) in ('remove_cp_and_links', 'disconnect_interface', 'delete_node'))
+                          for c in ast.walk(l))}
+            for ul_ in sorted(lists_):
+                def records(st_):
+                    return [x.id for c in ast.walk(st_) if isinstance(c, ast.Call) and call_name(c) in ('append', 'add', 'extend', 'insert') and
+                            isinstance(c.func.value, ast.Name) and c.func.value.id == ul_ for a_ in c.args for x in ast.walk(a_) if isinstance(x, ast.Name)]
+                body_ = tr_.body
+                for i_, st_ in enumerate(body_):
+                    if not (isinstance(st_, ast.Assign) and len(st_.targets) == 1 and isinstance(st_.targets[0], ast.Name) and
+                            any(isinstance(c, ast.Call) for c in ast.walk(st_.value))):
+                        continue
+                    var_ = st_.targets[0].id
+                    rec_at = [j_ for j_ in range(i_ + 1, len(body_)) if var_ in records(body_[j_])]
+                    if not rec_at:
+                        continue
+                    between = [b_ for b_ in body_[i_ + 1:rec_at[0]] if any(isinstance(c, ast.Call) for c in ast.walk(b_)) and not records(b_)]
+                    rep.instance('R9', f'{c_.name}.{f_.name}: {var_} created at step {i_}, put on {ul_} at step {rec_at[0]}, fallible steps in between: {len(between)}')
+                    if between:
+                        rep.violation('R9', loc(m_, between[0]), f'{c_.name}.{f_.name}', f'{norm(between[0], 70)} runs before `{var_}` is on the undo list',
+                                      f'`{var_}` is created, then `{norm(between[0], 60)}` can raise before `{var_}` has been recorded on {ul_}: '
+                                      f'the handler does not know about it and leaves it in the model')
+
     # ---- R6: a compensation handler only undoes what the guarded body has done ----
     rep.rule('R6', 'a rollback handler never deletes an element whose creation is itself inside the guarded body', floor=3)
     CREATORS = {'add_node': 'node_id', 'add_network_node_sliver': None, 'add_component_sliver': None, 'add_network_service_sliver': None,
